@@ -5,7 +5,7 @@
 (* and only the clauses of the property named in VERIF_JUDGE are judged at the *)
 (* return. Used to decide which property a divergence found by Trace_Decoder   *)
 (* violates, so that a check never reports more than its property states.      *)
-EXTENDS CborGrammar, CborEvents, Json, IOUtils, TLC
+EXTENDS CborLoadRef, Json, IOUtils, TLC
 
 TraceLog == ndJsonDeserialize(IOEnv.TRACE)
 TraceL == atoi(IOEnv.VERIF_L)
@@ -58,7 +58,11 @@ RetJudge(ln, adm, okSet) ==
                           /\ (ln.ok /\ refusals = 0) => (\E a \in okSet : TreeEqJ(ln.tree, a.tree[1]) /\ Depth(a.tree[1]) <= TraceL)
                           /\ (refusals = 0 /\ ~ln.ok /\ ln.code = "mem") => (\E a \in adm : a.code = "mem" /\ Eq(ln.pos, BE(a.pos, 4)))
 
-AdmNow == IF len = 0 THEN {[ok |-> FALSE, code |-> "nodata", pos |-> 0, tree |-> <<>>]}
+(* Short inputs are logged whole: the verdict is then computed from ALL the bytes (tokenisation + grammar), not only
+   from the heads the decoder under test chose to read. *)
+WholeInput == TraceLog[l0]["in"]
+AdmNow == IF len > 0 /\ refusals = 0 /\ WholeInput # <<>> THEN Admissible(EventsOfBytes(WholeInput), TraceL, TRUE) ELSE
+          IF len = 0 THEN {[ok |-> FALSE, code |-> "nodata", pos |-> 0, tree |-> <<>>]}
           ELSE IF refusals > 0 THEN {[ok |-> FALSE, code |-> "mem", pos |-> pos, tree |-> <<>>]}
           ELSE Admissible(EvsNow, TraceL, pos >= len)
 OkOf(adm) == {a \in adm : a.ok}
